@@ -315,6 +315,20 @@ macro_rules! wide_typed {
                     if let Some(e) = exp0 {
                         ensure!(as_raw(a[i][ch]) == e, "[{}; 2] frame {} channel {}: amplitude {} under scale_amp({}) yields raw {}, expected raw {}", k.name(), i, ch, amp, g0v, as_raw(a[i][ch]), e);
                     }
+                } else {
+                    // amplitudes beyond the float companion's mantissa: a gain of exactly 1 returns the sample to within the
+                    // companion's precision at that magnitude (and never leaves the range or changes sign), a gain of 0 the
+                    // amplitude-0 value
+                    let mant: u32 = if k.float_companion() == Kind::F32 { 24 } else { 53 };
+                    let slack: i128 = 1i128 << (k.bits().saturating_sub(mant) + 1);
+                    for (name, out, g) in [("scale_amp", a[i][ch], c.gains[0]), ("scale_amp_per_channel", b[i][ch], c.gains[ch]), ("mul_amp", m[i][ch], c.gains[ch])] {
+                        let r = as_raw(out);
+                        if g == 1.0 {
+                            ensure!((r - raw).abs() <= slack, "[{}; 2] frame {} channel {}: raw {} under {} with gain 1 yields raw {} (more than {} away)", k.name(), i, ch, raw, name, r, slack);
+                        } else if g == 0.0 {
+                            ensure!(r == k.eq_raw(), "[{}; 2] frame {} channel {}: raw {} under {} with gain 0 yields raw {}, expected the amplitude-0 value {}", k.name(), i, ch, raw, name, r, k.eq_raw());
+                        }
+                    }
                 }
             }
         }
